@@ -85,13 +85,16 @@ package go_clipper2
 //@   pure
 //@   requires domPath(path, 29)
 //@   loop 0 invariant [idx] 0 <= i && (i < l || i == 0) && l == len(path)
+//@   loop 0 step [only-collinear-head-dropped] i == old(i) + 1 && l == old(l) && isCollinear(path[l-1], path[old(i)], path[old(i)+1])
 //@   loop 0 decreases l - i
+//@   loop 1 step [only-collinear-tail-dropped] l == old(l) - 1 && i == old(i) && isCollinear(path[old(l)-2], path[old(l)-1], path[i])
 //@   loop 1 invariant [idx] 0 <= i && (i < l || i == 0) && l <= len(path) && l >= 0
 //@   loop 1 decreases l
 //@   loop 2 invariant [idx] 1 <= i && i <= l-1 && l <= len(path) && len(result) >= 1 && len(result) <= i
 //@   loop 2 invariant [last] last == result[len(result)-1]
 //@   loop 2 invariant [first-open] isOpen ==> result[0] == path[0] && l == len(path)
 //@   loop 2 invariant [members] forall(k, 0, len(result), memberOf(result[k], path))
+//@   loop 2 step [kept-or-collinear] i == old(i) + 1 && ((same(result, old(result)) && last == old(last) && isCollinear(old(last), path[old(i)], path[old(i)+1])) || (len(result) == old(len(result)) + 1 && result[len(result)-1] == path[old(i)] && last == path[old(i)] && !isCollinear(old(last), path[old(i)], path[old(i)+1])))
 //@   loop 2 decreases l - i
 //@   loop 3 invariant [members] forall(k, 0, len(result), memberOf(result[k], path))
 //@   loop 3 invariant [len] len(result) >= 1
